@@ -242,7 +242,7 @@ def run_exhaustive(spec, rec):
     rec.sample({'exhaustive': spec['world'], 'alphabet': alpha, 'max_len': spec['L'], 'complete_histories': n})
 
 
-def check_group_copy(core, v, level, ec, how, rec, rng):
+def check_group_copy(core, v, level, ec, how, rec, rng, zdst=False):
     """a group (segments holding repetitions, components and sub-components) copied from one message into another that
     declares the same delimiters: the copy encodes line for line like the source, and the source keeps its group"""
     from .. import structref, er7ref
@@ -269,8 +269,8 @@ def check_group_copy(core, v, level, ec, how, rec, rng):
         return
     name, g, row = cands[rng.randrange(len(cands))]
     case = {'kind': 'group-copy', 'version': v, 'level': level, 'structure': name, 'group': g.name, 'how': how,
-            'ec': {k: c for k, c in (ec or {}).items() if k not in ('SEGMENT', 'GROUP')} or None}
-    rec.evaluation(('group-copy', v, level, name, g.name, how, hooks_ec(ec)))
+            'ec': {k: c for k, c in (ec or {}).items() if k not in ('SEGMENT', 'GROUP')} or None, 'zdst': zdst}
+    rec.evaluation(('group-copy', v, level, name, g.name, how, hooks_ec(ec), zdst))
     chars = ec or er7ref.STD
     F, C, R = chars['FIELD'], chars['COMPONENT'], chars['REPETITION']
     seg = g.children[0].name
@@ -278,7 +278,9 @@ def check_group_copy(core, v, level, ec, how, rec, rng):
     try:
         ms = []
         for k in range(2):
-            m = core.Message(name, version=v, validation_level=level, encoding_chars=gen.full_ec(ec) if ec else None)
+            # (the receiving message may be a locally defined one, which holds standard groups looked up in the version)
+            mname = 'ZDT_Z01' if (zdst and k == 1) else name
+            m = core.Message(mname, version=v, validation_level=level, encoding_chars=gen.full_ec(ec) if ec else None)
             m.msh.msh_7 = '20200101'
             m.msh.msh_9 = structref.msh9_for(v, name).replace('^', C)
             m.msh.msh_10 = str(k)
@@ -310,6 +312,69 @@ def check_group_copy(core, v, level, ec, how, rec, rng):
         rec.violation('valid-operation-raised:group-copy:%s' % type(e).__name__, case, {'exc': repr(e)[:200]})
 
 
+def check_group_copy_profile(core, v, level, how, rec, rng):
+    """both messages are built on a message profile that allows the first segment of a repeatable group twice (the standard
+    allows it once): a group holding two of them is copied like any other"""
+    from .. import structref
+    from . import c18
+    msgs = tables.messages(v)
+    cands = []
+    for name in ('ADT_A01', 'ORU_R01', 'ADT_A05', 'RDE_O11', 'ORM_O01', 'OML_O21'):
+        node = msgs.get(name)
+        if node is None or not structref.usable(v, node) or not structref.msh9_for(v, name):
+            continue
+        for g in node.children:
+            if g.kind == 'GRP' and g.card[1] == -1 and g.children and g.children[0].kind == 'SEG' and \
+                    g.children[0].card == (1, 1) and [x.name for x in node.children].count(g.name) == 1 and \
+                    tables.segment_name_places(node)[g.children[0].name] == 1:
+                rows = [r for r in gen.usable_rows(v, g.children[0].name) if r.kind == 'leaf' and r.datatype in ('ST', 'ID', 'IS', 'SI')
+                        and r.card[1] != 0]
+                if rows:
+                    cands.append((name, g, rows[0]))
+    if not cands:
+        rec.count('group_copy_not_applicable')
+        return
+    name, g, row = cands[rng.randrange(len(cands))]
+    seg = g.children[0].name
+    t = c18.thaw(tables.lib(v).MESSAGES[name])
+    for c in t[1]:
+        if c[0] == g.name:
+            c[1][1][0][2] = [1, 2]
+    prof = {name: c18.freeze(t)}
+    case = {'kind': 'group-copy-profile', 'version': v, 'level': level, 'structure': name, 'group': g.name, 'how': how}
+    rec.evaluation(('group-copy-profile', v, level, name, g.name, how))
+    val = '1' if row.datatype == 'SI' else 'A'
+    lines = [seg + '|' * row.num + val, seg + '|' * row.num + val]
+    try:
+        ms = []
+        for k in range(2):
+            m = core.Message(name, reference=prof, version=v, validation_level=level)
+            m.msh.msh_7 = '20200101'
+            m.msh.msh_9 = structref.msh9_for(v, name)
+            m.msh.msh_10 = str(k)
+            ms.append(m)
+        src, dst = ms
+        grp = src.add_group(g.name)
+        for _ in range(2):
+            setattr(grp.add_segment(seg), row.name.lower(), val)
+        if [l for l in src.to_er7().split('\r') if l][1:] != lines:
+            rec.count('group_copy_source_not_as_expected')
+            return
+        gname = g.name.lower()
+        if how in ('proxy', 'index'):
+            setattr(dst, gname, getattr(src, gname))
+        elif how == 'element':
+            setattr(dst, gname, getattr(src, gname)[0])
+        else:
+            setattr(dst, gname, '\r'.join(lines))
+        rec.count('group_copies_compared_under_a_profile')
+        got_dst = [l for l in dst.to_er7().split('\r') if l][1:]
+        if got_dst != lines:
+            rec.violation('group-not-copied-by-value:profile', case, {'copy': got_dst, 'expected': lines})
+    except Exception as e:
+        rec.violation('valid-operation-raised:group-copy-profile:%s' % type(e).__name__, case, {'exc': repr(e)[:200]})
+
+
 def hooks_ec(ec):
     return ''.join(ec[k] for k in ('FIELD', 'COMPONENT', 'SUBCOMPONENT', 'REPETITION', 'ESCAPE')) if ec else 'std'
 
@@ -320,7 +385,10 @@ def run_groupcopy(spec, rec):
     rng = gen.rng_for(spec['seed'], 'c09-groupcopy', v)
     for i in range(spec['n']):
         ec = None if i % 2 == 0 else gen.delimiter_set(rng, v, with_truncation=False)
-        check_group_copy(core, v, 1 + i % 3 % 2, ec, ('proxy', 'element', 'text', 'index')[i % 4], rec, rng)
+        check_group_copy(core, v, 1 + i % 3 % 2, ec, ('proxy', 'element', 'text', 'index')[i % 4], rec, rng,
+                         zdst=(i % 5 == 2))
+        if i % 3 == 0:
+            check_group_copy_profile(core, v, 1 + (i // 3) % 2, ('proxy', 'element', 'text')[(i // 3) % 3], rec, rng)
     rec.seen('versions', v)
 
 
@@ -329,11 +397,16 @@ def run_shard(spec, rec):
 
 
 def replay(case, rec):
+    if case.get('kind') == 'group-copy-profile':
+        from hl7apy import core
+        for k in range(8):
+            check_group_copy_profile(core, case['version'], case['level'], case['how'], rec, gen.rng_for(k, 'replay'))
+        return
     if case.get('kind') == 'group-copy':
         from hl7apy import core
         for k in range(8):
             check_group_copy(core, case['version'], case['level'], gen.full_ec(case['ec']) if case.get('ec') else None,
-                             case['how'], rec, gen.rng_for(k, 'replay'))
+                             case['how'], rec, gen.rng_for(k, 'replay'), zdst=case.get('zdst', False))
         return
     d = case['world']
     rng = gen.rng_for(0, 'replay')
